@@ -115,6 +115,11 @@ def python_constants(em, pkg):
                 for member in v:
                     if isinstance(member.value, int):
                         em.int("py_%s_%s_%s" % (mod, name, member.name), member.value)
+            elif isinstance(v, type) and v.__module__ == m.__name__ and not issubclass(v, enum.Enum):
+                # plain "enum-like" classes (BoxIntersectionType): upper-case int attributes
+                for an, av in sorted(vars(v).items()):
+                    if re.fullmatch(r"[A-Z][A-Z0-9_]*", an) and isinstance(av, int) and not isinstance(av, bool):
+                        em.int("py_%s_%s_%s" % (mod, name, an), av)
 
 
 def _func(tree, name):
@@ -153,6 +158,15 @@ def python_literals(em):
             raise ValueError("unexpected comparison " + op)
     except Exception as exc:  # noqa
         em.problem("py vs threshold: %r" % (exc,))
+    # wiggle_interval(value, wiggle=0.5**44): the default argument
+    try:
+        fn = _func(tree("helpers"), "wiggle_interval")
+        names = [a.arg for a in fn.args.args]
+        dflt = fn.args.defaults[names.index("wiggle") - (len(names) - len(fn.args.defaults))]
+        val = eval(compile(ast.Expression(dflt), "<wiggle default>", "eval"), {"__builtins__": {}})
+        em.rat("py_helpers_wiggle_default", Fr(val))
+    except Exception as exc:  # noqa
+        em.problem("py wiggle default: %r" % (exc,))
     # linearization_error: 0.125 * degree * (degree - 1) * worst_case
     try:
         fn = _func(tree("geometric_intersection"), "linearization_error")
@@ -390,6 +404,18 @@ def fortran_parameters(em):
 
 
 def fortran_literals(em):
+    # linearization_error: error = 0.125_dp * (num_nodes - 1) * (num_nodes - 2) * norm2(worst_case)
+    try:
+        found = None
+        for line in fortran_lines("curve_intersection"):
+            m = re.match(r"error = ([\d.]+)_dp \* \(num_nodes - 1\) \* \(num_nodes - 2\) \* norm2\(worst_case\)", line)
+            if m:
+                found = Fr(m.group(1))
+        if found is None:
+            raise ValueError("anchor not found")
+        em.rat("f90_linearization_factor", found)
+    except Exception as exc:  # noqa
+        em.problem("f90 linearization factor: %r" % (exc,))
     lines = fortran_lines("curve")
     # evaluate_curve_barycentric: if (num_nodes > 55) then
     try:
